@@ -180,8 +180,82 @@ pub fn bysec(st: &State, fam: &str, rest: &str) -> String {
 	})
 }
 
+// ---------------------------------------------------------------------------------------------
+// second audit round: `slice_bytes` / `read_bytes`, and every header accessor through the API of
+// the constructed object itself (`hdrw2`: for `wf` / `wv` that is `Wrap::headers()`,
+// `Wrap::nt_headers()`, `Wrap::optional_header()` and the methods of src/wrap/headers.rs)
+
+/// slice_bytes <k> <rva>      (`Pe::slice_bytes` / `Wrap::slice_bytes`)
+pub fn slice_bytes(st: &State, rest: &str) -> String {
+	let a: Vec<&str> = rest.split(' ').collect();
+	if a.len() != 2 { return "bad-op".to_string(); }
+	let (k, rva) = (a[0], num(a[1]) as u32);
+	with_any!(st, k, g, p => rs(g, p.slice_bytes(rva)))
+}
+/// read_bytes <k> <va>        (`Pe::read_bytes`; the wrappers have no VA based API)
+pub fn read_bytes(st: &State, rest: &str) -> String {
+	let a: Vec<&str> = rest.split(' ').collect();
+	if a.len() != 2 { return "bad-op".to_string(); }
+	let (k, va) = (a[0], num(a[1]));
+	with_specific!(st, k, g, p => rs(g, p.read_bytes(va as _)))
+}
+
+/// What `nt_headers()` / `optional_header()` hand out: a reference to the struct of one format, or the
+/// wrappers' `Wrap<&…32, &…64>`.  Printed as `<bits>@off:len` plus the fields read THROUGH that reference.
+pub trait HdrShow { fn show(&self, g: &Guarded) -> String; }
+impl<'a> HdrShow for &'a pelite::image::IMAGE_NT_HEADERS32 {
+	fn show(&self, g: &Guarded) -> String { let sig = self.Signature; format!("32@{} sig={}", tref(g, *self as *const pelite::image::IMAGE_NT_HEADERS32, std::mem::size_of::<pelite::image::IMAGE_NT_HEADERS32>()), sig) }
+}
+impl<'a> HdrShow for &'a pelite::image::IMAGE_NT_HEADERS64 {
+	fn show(&self, g: &Guarded) -> String { let sig = self.Signature; format!("64@{} sig={}", tref(g, *self as *const pelite::image::IMAGE_NT_HEADERS64, std::mem::size_of::<pelite::image::IMAGE_NT_HEADERS64>()), sig) }
+}
+impl<'a> HdrShow for &'a pelite::image::IMAGE_OPTIONAL_HEADER32 {
+	fn show(&self, g: &Guarded) -> String {
+		let (magic, soi, soh, ib, n) = (self.Magic, self.SizeOfImage, self.SizeOfHeaders, self.ImageBase, self.NumberOfRvaAndSizes);
+		format!("32@{} magic={} soi={} soh={} ibase={} nrva={}", tref(g, *self as *const pelite::image::IMAGE_OPTIONAL_HEADER32, std::mem::size_of::<pelite::image::IMAGE_OPTIONAL_HEADER32>()), magic, soi, soh, ib as u64, n)
+	}
+}
+impl<'a> HdrShow for &'a pelite::image::IMAGE_OPTIONAL_HEADER64 {
+	fn show(&self, g: &Guarded) -> String {
+		let (magic, soi, soh, ib, n) = (self.Magic, self.SizeOfImage, self.SizeOfHeaders, self.ImageBase, self.NumberOfRvaAndSizes);
+		format!("64@{} magic={} soi={} soh={} ibase={} nrva={}", tref(g, *self as *const pelite::image::IMAGE_OPTIONAL_HEADER64, std::mem::size_of::<pelite::image::IMAGE_OPTIONAL_HEADER64>()), magic, soi, soh, ib, n)
+	}
+}
+impl<A: HdrShow, B: HdrShow> HdrShow for Wrap<A, B> {
+	fn show(&self, g: &Guarded) -> String { match self { Wrap::T32(a) => a.show(g), Wrap::T64(b) => b.show(g) } }
+}
+
+/// hdrw2 <k> : every header accessor through the API of the object `k` constructs (`with_any!`: the
+/// wrappers are NOT unwrapped), in the notation of `hdr` — the answers for `wf` / `wv` and for the
+/// format specific constructor on the same image are comparable token by token
+pub fn hdrw2(st: &State, rest: &str) -> String {
+	let k = rest.trim();
+	with_any!(st, k, g, p => {
+		let dos = p.dos_header();
+		let di = p.dos_image();
+		let nt = p.nt_headers();
+		let fh = p.file_header();
+		let oh = p.optional_header();
+		let dd = p.data_directory();
+		let sh = p.section_headers().image();
+		let h = p.headers();
+		let hi = h.image();
+		let cr = h.code_range();
+		let ir = h.image_range();
+		let pi = h.pe().image();
+		let al = match h.pe().align() { pelite::Align::File => "F", pelite::Align::Section => "S" };
+		format!("ok dos={} dosimg={} nt={} fh={} opt={} dd={} sec={} himg={} csum={} code={}..{} image={}..{} peimg={} align={}",
+			tref(g, dos, 64), g.rf(di.as_ptr(), di.len()), nt.show(g), tref(g, fh, 20), oh.show(g),
+			tref(g, dd.as_ptr(), dd.len() * 8), tref(g, sh.as_ptr(), sh.len() * 40), g.rf(hi.as_ptr(), hi.len()),
+			h.check_sum(), cr.start, cr.end, ir.start, ir.end, g.rf(pi.as_ptr(), pi.len()), al)
+	})
+}
+
 pub fn dispatch(st: &mut State, fam: &str, rest: &str) -> Option<String> {
 	Some(match fam {
+		"slice_bytes" => slice_bytes(st, rest),
+		"read_bytes" => read_bytes(st, rest),
+		"hdrw2" => hdrw2(st, rest),
 		"from_bytes" => from_bytes(st, rest),
 		"hdr" => hdr(st, rest),
 		"hdrw" => hdrw(st, rest),
